@@ -56,9 +56,12 @@ impl TestRunnerAdapter {
         thread::spawn(move || {
             let mut last_checked_pc = None;
             while thread_is_connected.load(Ordering::Relaxed) {
-                let state = *thread_state.lock().unwrap();
-                match state {
+                // The running state stays locked while we act on it: a 'pause' must not be able to report a program counter
+                // and have us execute one more instruction afterwards
+                let mut state = thread_state.lock().unwrap();
+                match *state {
                     MachineRunningState::Launching | MachineRunningState::Stopped(_) => {
+                        drop(state);
                         thread::sleep(Duration::from_millis(50));
                     }
                     MachineRunningState::Running => {
@@ -73,7 +76,6 @@ impl TestRunnerAdapter {
                                     .iter()
                                     .any(|bp| bp.range.start <= pc && bp.range.end > pc)
                                 {
-                                    let mut state = thread_state.lock().unwrap();
                                     let old = *state;
                                     let new = MachineRunningState::Stopped(pc);
                                     *state = new;
@@ -87,7 +89,10 @@ impl TestRunnerAdapter {
 
                         {
                             let mut runner = thread_runner.write().unwrap();
-                            match runner.execute_instruction() {
+                            let result = runner.execute_instruction();
+                            drop(runner);
+                            drop(state);
+                            match result {
                                 Ok(result) => {
                                     // Give rest of core a chance to do something
                                     thread::sleep(Duration::from_millis(0));
@@ -228,10 +233,15 @@ impl MachineAdapter for TestRunnerAdapter {
     }
 
     fn pause(&mut self) -> MosResult<()> {
+        // Lock the state first: the machine thread only executes while it holds this lock, so the program counter we read
+        // is still the machine's program counter when 'Stopped' becomes visible
+        let mut state = self.state.lock().unwrap();
         let pc = self.runner.read().unwrap().cpu().get_program_counter();
-        self.update_state(MachineRunningState::Stopped(ProgramCounter::new(
-            pc as usize,
-        )))?;
+        let old = *state;
+        let new = MachineRunningState::Stopped(ProgramCounter::new(pc as usize));
+        *state = new;
+        self.event_sender
+            .send(MachineEvent::RunningStateChanged { old, new })?;
         Ok(())
     }
 
